@@ -56,6 +56,15 @@ def document(P, rs, spelling, variant):
     return X.document("c04", v, start=f2(start), stop=f2(stop), dt=dt_xml(rs["dt"], spelling))
 
 
+def prime_factors(n):
+    out, p = set(), 2
+    while n > 1:
+        while n % p == 0:
+            out.add(p); n //= p
+        p += 1
+    return out
+
+
 def times(rs):
     return [float(fr(rs["start"]) + k * fr(rs["dt"])) for k in range(rs["n"] + 1)]
 
@@ -86,12 +95,17 @@ def run(tier, replay_file=None):
     quick = tier == "quick"
     BPTK_Py = common.use_repo()
     trajs, st = sd_gen.trajectories(sd_gen.PARAMS, sd_gen.QUICK_RS + ([] if quick else sd_gen.MORE_RS))
-    R.cov["states"], R.cov["transitions"] = st["distinct"], st["generated"]
+    trajs2, st2 = sd_gen.trajectories(sd_gen.PARAMS[:3] if quick else sd_gen.PARAMS, sd_gen.RECIPROCAL_RS)
+    trajs = trajs + trajs2
+    R.cov["states"], R.cov["transitions"] = st["distinct"] + st2["distinct"], st["generated"] + st2["generated"]
+    R.cov["trajectories_reciprocal_dt"] = len(trajs2)
+    from BPTK_Py.sdsimulation import SdSimulation
     workdir = tempfile.mkdtemp(prefix="vx4_")
     stats, docs = {}, 0
     try:
         for n, case in enumerate(trajs):
-            for spelling in (("decimal", "reciprocal") if fr(case["rs"]["dt"]).numerator == 1 and fr(case["rs"]["dt"]) != 1 else ("decimal",)):
+            terminating = all(p in (2, 5) for p in prime_factors(fr(case["rs"]["dt"]).denominator))
+            for spelling in ((("decimal", "reciprocal") if terminating else ("reciprocal",)) if fr(case["rs"]["dt"]).numerator == 1 and fr(case["rs"]["dt"]) != 1 else ("decimal",)):
                 extra = {"dt_spelling": spelling, "variant": n % 2}
                 try:
                     sim, dest = X.compile_doc(document(case["P"], case["rs"], spelling, n), workdir)
@@ -105,6 +119,36 @@ def run(tier, replay_file=None):
                     continue
                 ok = compare(R, case, lambda el, k, t: float(sim.equation(el, t)), "simulation_model().equation", stats, extra)
                 R.add("traces_validated_against_impl")
+                if ok:
+                    # the whole run as the simulation engine performs it (SdSimulation.start on a fresh instance): one row per
+                    # grid point from start to stop, same values
+                    sim3, _ = X.compile_doc(document(case["P"], case["rs"], spelling, n), workdir)
+                    df = SdSimulation(model=sim3).start(output=["frame"], equations=list(ELEMENTS))
+                    idx = [float(t) for t in df.index]
+                    if len(idx) != len(ts) or any(abs(a - b) > 1e-9 for a, b in zip(idx, ts)):
+                        R.violation("the run of the transpiled model does not cover the time grid from start to stop",
+                                    dict(extra, expected=ts[:4] + ["...", ts[-1]], n_expected=len(ts), observed=idx[:4] + ["...", idx[-1] if idx else None], n_observed=len(idx),
+                                         runspec={x: str(fr(v)) if isinstance(v, list) else v for x, v in case["rs"].items()}))
+                        ok = False
+                    else:
+                        ok = compare(R, case, lambda el, k, t: float(df[el].iloc[k]), "SdSimulation.start(frame)", stats, extra)
+                if ok:
+                    # cold, top-down: the first evaluation on a fresh instance is at the stop time (every earlier time is reached by
+                    # the stock's own t - dt recursion)
+                    sim4, _ = X.compile_doc(document(case["P"], case["rs"], spelling, n), workdir)
+                    last = len(ts) - 1
+                    for el in ("s1", "s2", "s3", "s4"):
+                        exp = fr(case["traj"][last][el])
+                        if exp is None:
+                            continue
+                        got = float(sim4.equation(el, ts[last]))
+                        stats["compared"] = stats.get("compared", 0) + 1
+                        if not math.isclose(got, float(exp), rel_tol=1e-9, abs_tol=1e-9):
+                            R.violation("transpiled element %s differs from the explicit-Euler value" % el,
+                                        dict(extra, element=el, t=ts[last], expected=float(exp), observed=got, channel="cold evaluation at the stop time",
+                                             runspec={x: str(fr(v)) if isinstance(v, list) else v for x, v in case["rs"].items()}))
+                            ok = False
+                            break
                 if ok and spelling == "decimal":
                     # through bptk with a 'source' scenario manager is covered by C07; here: the same structure in the DSL
                     m, *_ = sd_dsl.build(case["P"], case["rs"], "d%d" % n, spelling=n)
